@@ -143,6 +143,67 @@ def ad_textbook(data):
 
 # ----------------------------------------------------------------------------
 
+
+# ----------------------------------------------------------------------------
+# E3: the real-number model of the Anderson-Darling statistic / p-value against the
+# implementation's output, one `interval` goal per point
+
+def _ad_branch_margins(n, a):
+    """Mirror of AnDarl.c (used ONLY to keep E3 points away from the branch
+    thresholds of AD(n,z), where interval arithmetic cannot decide the branch)."""
+    z = a
+    if abs(z - 2.0) < 1e-2 or z <= 1e-3 or z > 30:
+        return False
+    if z < 2.0:
+        x = math.exp(-1.2337141 / z) / math.sqrt(z) * (2.00012 + (.247105 - (.0649821 - (.0347962 - (
+            .011672 - .00168691 * z) * z) * z) * z) * z)
+    else:
+        x = math.exp(-math.exp(1.0776 - (2.30695 - (.43424 - (.082433 - (.008056 - .0003146 * z) * z) * z) * z) * z))
+    c = .01265 + .1757 / n
+    if abs(x - 0.8) < 1e-3 or abs(x - c) < 1e-4 * 1 or x < 1e-12:
+        return False
+    return True
+
+
+def _q(v):
+    f = Fr(v)
+    return f"({f.numerator} / {f.denominator})" if f.denominator != 1 else f"({f.numerator})"
+
+
+E3_HEADER = ("From Coq Require Import Reals List ZArith.\nFrom Interval Require Import Tactic.\n"
+             "From Hy Require Import Base.Num Gen.ConstsC10 Model.Dscore Proofs.DscoreADProofs.\n"
+             "Import ListNotations. Open Scope R_scope.\n")
+
+
+def e3_text(xs, a, p):
+    ta = 1e-12 * max(1.0, abs(a))
+    return (E3_HEADER +
+            f"Example e3_stat : Rabs (ad_stat_sorted [{'; '.join(_q(v) for v in xs)}] - {_q(a)}) <= {_q(ta)}.\n"
+            "Proof. ad_stat_e3. Qed.\n"
+            f"Example e3_pvalue : forall z, {_q(a)} - {_q(ta)} <= z <= {_q(a)} + {_q(ta)} -> "
+            f"Rabs (ad_pvalue {len(xs)} z - {_q(p)}) <= 1 / 1000000000.\n"
+            "Proof. ad_pvalue_e3. Qed.\n")
+
+
+def run_e3(points):
+    """points: list of (sorted sample, statistic, p-value).  Returns list of (index, ok, log)."""
+    from concurrent.futures import ThreadPoolExecutor
+    d = cm.scratch() / "e3_C10"
+    d.mkdir(exist_ok=True)
+    files = []
+    for k, (xs, a, p) in enumerate(points):
+        f = d / f"E3_C10_{k}.v"
+        f.write_text(e3_text(xs, a, p))
+        files.append((k, f))
+
+    def one(kf):
+        k, f = kf
+        rc, out = cm.coqc_file(f, timeout=600)
+        return k, rc == 0, out[-1500:]
+    with ThreadPoolExecutor(max_workers=cm.NCPU) as ex:
+        return list(ex.map(one, files))
+
+
 class Recorder:
     """Records the arrays numpy.random.uniform hands to metrics.pit (the jitter)."""
 
@@ -254,7 +315,7 @@ def run(ctx):
             for j in range(i + 1, n):
                 if abs(Fr(float(fm[i, j])) - F[(i, j)]) > Fr(1, 10 ** 9):
                     fail(idx, "C10/ensrank/fmat-not-midrank",
-                         f"fmat[{i},{j}]={fm[i, j]!r}, pairwise mid-rank comparison gives {float(F[(i, j)])!r} "
+                         f"fmat[{i},{j}]={float(fm[i, j])!r}, pairwise mid-rank comparison gives {float(F[(i, j)])!r} "
                          f"(ensembles {sim[i]} / {sim[j]}, eps={eps})")
                     return
         if any(Fr(float(a)) != b for a, b in zip(rk, wr)):
@@ -262,6 +323,41 @@ def run(ctx):
                  f"ranks={ranks}, Weigel-Mason ranks={[float(x) for x in wr]} (eps={eps}, sim={sim})")
 
     nmax, mmax = (30, 24) if thorough else (12, 8)
+
+    # ------------------------------------------------------------------
+    # 0. replays of the recorded (repaired) findings and of corpus/C10, first
+    import json
+    kf = cm.VERIF / "known_findings.d" / "C10.json"
+    stored = [f["replay"] for f in json.loads(kf.read_text())["findings"]] if kf.exists() else []
+    stored += cm.load_corpus(PID)
+    for rp in stored:
+        ctx.count(("stored-replay", rp.get("call")))
+        try:
+            if rp["call"] == "c_hydrodiy_stat.ensrank":
+                do_ensrank(rp["eps"], rp["sim"], "stored")
+            elif rp["call"] == "metrics.anderson_darling_test":
+                a, pa = metrics.anderson_darling_test(np.array(rp["data"], dtype=np.float64))
+                if not (0.0 <= float(pa) <= 1.0):
+                    fail(None, "C10/ad/pvalue-out-of-range",
+                         f"AD p-value {float(pa)!r} (n={len(rp['data'])}, statistic {float(a)!r})",
+                         dict(rp, stat=float(a), pvalue=float(pa)))
+            elif rp["call"] == "metrics.pit":
+                pits, _ = metrics.pit(np.array(rp["obs"]), np.array(rp["ens"]), random=rp["random"],
+                                      cst=rp["cst"], censor=rp["censor"])
+                if not all(0.0 <= float(v) <= 1.0 for v in pits):
+                    fail(None, "C10/pit/out-of-range",
+                         f"PIT={[float(v) for v in pits]!r} not in [0,1] (random={rp['random']}, "
+                         f"{len(rp['ens'][0])} members)", rp)
+            elif rp["call"] == "metrics.dscore" and rp.get("map") in MAPS:
+                d1 = float(metrics.dscore(np.array(rp["obs"]), np.array(rp["sim"]), eps=rp["eps"]))
+                gs = [[MAPS[rp["map"]](v) for v in row] for row in rp["sim"]]
+                d2 = float(metrics.dscore(np.array(rp["obs"]), np.array(gs), eps=rp["eps"]))
+                if not abs(d1 - d2) <= 1e-12:
+                    fail(None, "C10/dscore/forecast-rescaling",
+                         f"dscore changes from {d1!r} to {d2!r} under the increasing map {rp['map']} "
+                         "of the forecasts", rp)
+        except (KeyError, TypeError, ValueError) as e:
+            ctx.notes.setdefault("stored_replay_errors", []).append(f"{rp.get('call')}: {e}")
     for it in range(ctx.scale(260, 4000)):
         n = rng.choice([1, 2, 2, 3, 4, rng.randint(2, nmax)])
         m = rng.choice([1, 1, 2, 3, rng.randint(1, mmax)])
@@ -278,6 +374,26 @@ def run(ctx):
             sim = [[v * 2.0 ** 62 for v in row] for row in sim]
             mode += "+large"
         do_ensrank(eps, sim, mode)
+    # very large ensembles: the fixed thresholds 0.5 -+ 1e-8 against the smallest gap 1/(2 m^2)
+    for m in (7071, 7072):
+        sim = [[0.0] * (m - 1) + [1.0], [0.0] * (m - 1) + [2.0]]
+        code, fm, rk = call_ensrank(1e-6, sim)
+        ctx.count(("ensrank-large-ensemble", m))
+        # exact pairwise comparison: the (m-1)^2 tied pairs count 1/2, (1 vs 0) m-1 pairs count 1
+        Fx = (Fr((m - 1) * (m - 1), 2) + (m - 1)) / (m * m)
+        want = [Fr(1), Fr(2)] if Fx < Fr(1, 2) else [Fr(2), Fr(1)]
+        if code != 0 or abs(Fr(float(fm[0, 1])) - Fx) > Fr(1, 10 ** 9):
+            fail(None, "C10/ensrank/fmat-not-midrank",
+                 f"{m} members: fmat[0,1]={float(fm[0, 1])!r}, exact {float(Fx)!r}",
+                 {"call": "c_hydrodiy_stat.ensrank", "eps": 1e-6, "m": m,
+                  "sim": f"[[0]*{m - 1}+[1], [0]*{m - 1}+[2]]"})
+        elif [Fr(float(v)) for v in rk] != want:
+            key = "C10/ensrank/ranks-not-weigel-mason" + ("/ensemble-of-7072-or-more" if m >= 7072 else "")
+            fail(None, key,
+                 f"{m} members: ranks {[float(v) for v in rk]}, Weigel-Mason ranks {[float(v) for v in want]} "
+                 f"(F = 1/2 - 1/(2 m^2) = {float(fm[0, 1])!r})",
+                 {"call": "c_hydrodiy_stat.ensrank", "eps": 1e-6, "m": m,
+                  "sim": f"[[0]*{m - 1}+[1], [0]*{m - 1}+[2]]", "ranks": [float(v) for v in rk]})
     # error paths of the kernel
     for eps, sim in [(1e-21, [[1.0, 2.0], [2.0, 3.0]]), (0.0, [[1.0], [2.0]]), (-1.0, [[1.0], [2.0]]),
                      (1e-6, [[], [], []]), (1e-6, []), (float("nan"), [[1.0, 2.0], [0.0, 1.0]])]:
@@ -550,6 +666,7 @@ def run(ctx):
         return x, kind
 
     nsamp_max = ctx.scale(400, 1200)
+    e3_points, e3_replays, e3_max = [], [], ctx.scale(6, 40)
     table_ok = bool(np.all((metrics.CVM_TABLE >= 0) & (metrics.CVM_TABLE <= 1)))
     ctx.notes["cvm_table_in_unit_interval"] = table_ok
     for it in range(ctx.scale(150, 1500)):
@@ -592,6 +709,10 @@ def run(ctx):
         if a is None:
             fail(aidx, "C10/ad/valid-sample-rejected", f"anderson_darling_test raised on {n} values in (0,1)", areplay)
             continue
+        if n <= 8 and len(e3_points) < e3_max and 1e-4 < min(x) and max(x) < 1 - 1e-4 \
+                and _ad_branch_margins(n, a) and (1e-6 < pa < 1 - 1e-6 or pa in (0.0, 1.0)):
+            e3_points.append((sorted(x), a, pa))
+            e3_replays.append(areplay)
         wanta = ad_textbook(x)
         if not abs(a - wanta) <= 1e-9 * max(1.0, abs(wanta)):
             fail(aidx, "C10/ad/statistic", f"AD statistic {a!r}, textbook formula {wanta!r} (n={n})", areplay)
@@ -619,6 +740,12 @@ def run(ctx):
             if not (0.0 <= float(p) <= 1.0):
                 fail(None, "C10/cvm/pvalue-out-of-range", f"CvM p-value {float(p)!r} (regular sample, n={n})",
                      {"call": "metrics.cramer_von_mises_test", "data": x})
+    # E3 always includes the ten mid-points (where the pinned p-value exceeds 1)
+    x10 = [(i + 0.5) / 10 for i in range(10)]
+    a10, p10 = metrics.anderson_darling_test(np.array(x10))
+    e3_points.append((x10, float(a10), float(p10)))
+    e3_replays.append({"call": "metrics.anderson_darling_test", "data": x10, "stat": float(a10),
+                       "pvalue": float(p10)})
     # rejection by the Anderson-Darling test
     for it in range(ctx.scale(80, 600)):
         n = rng.choice([1, 2, 3, rng.randint(1, 40)])
@@ -712,6 +839,25 @@ def run(ctx):
     ctx.notes["correspondence_mismatches"] = len(bad)
     for k in range(nshards):
         ctx.obligation(f"Cases_{PID}_{k}.agree (model = implementation on the shard)", True)
+    # E3: Anderson-Darling statistic and p-value against the real-number model
+    e3_bad = []
+    if proved:
+        for k, ok, log in run_e3(e3_points):
+            ctx.obligation(f"E3_C10_{k}: |ad_stat - A2| <= 1e-12, |ad_pvalue - p| <= 1e-9 (interval)", ok)
+            ctx.count(("e3", len(e3_points[k][0])))
+            if not ok:
+                e3_bad.append((k, log))
+    ctx.notes["e3_points"] = len(e3_points)
+    ctx.notes["e3_failed"] = len(e3_bad)
+    if e3_bad:
+        k, log = e3_bad[0]
+        out_of_range = not (0.0 <= e3_points[k][2] <= 1.0)
+        ctx.failure("C10/correspondence-e3",
+                    {"broken": "real-number model of AnDarl.c vs anderson_darling_test (interval)",
+                     "n_failed": len(e3_bad), "first": e3_replays[k], "log": log},
+                    f"the Anderson-Darling statistic / p-value of the implementation is not the model's "
+                    f"on {len(e3_bad)} point(s)",
+                    nofail=not (out_of_range or ctx.violation_count))
     cm.settle(ctx, proved, bad, failed, orc_fail, lambda i: replays[i],
               "Model/Dscore.v vs c_dscore.c / AnDarl.c / metrics.py")
     return ctx.finish()
